@@ -160,6 +160,8 @@ let dispatch (fn : Stdlib.String.t) (args : v list) : v =
   | "htmldiff", [o; n; rules; ms] ->
       let (c, ((comb, ins), del)) = htmldiff (to_el o) (to_el n) (to_rules rules) (to_n ms) in
       L [of_nat c.change_count; of_nat c.deletions_count; of_nat c.insertions_count; of_str comb; of_str ins; of_str del]
+  | "nesting", [o; n; rules; ms] ->
+      L (List.map (fun b -> I (if b then 1 else 0)) (nesting_report (to_el o) (to_el n) (to_rules rules) (to_n ms)))
   | "links_html", [title; ins; del; entries] ->
       let to_z (x : v) : z = (match x with I 0 -> Z0 | I k when k > 0 -> Zpos (pos_of_int k) | I k -> Zneg (pos_of_int (- k)) | _ -> bad "z") in
       let to_dmp = to_list (to_pair to_z to_str) in
